@@ -129,6 +129,33 @@ impl<'ast> Visit<'ast> for LoopFinder {
                 }
             }
         }
+        // D3: X.iter().filter(|PAT| COND).copied().collect::<Vec<_>>()
+        if e.method == "collect" && e.args.is_empty() {
+            if let syn::Expr::MethodCall(cp) = &*e.receiver {
+                if cp.method == "copied" && cp.args.is_empty() {
+                    if let syn::Expr::MethodCall(fl) = &*cp.receiver {
+                        if fl.method == "filter" && fl.args.len() == 1 {
+                            if let (syn::Expr::Closure(c), syn::Expr::MethodCall(it)) = (&fl.args[0], &*fl.receiver) {
+                                if it.method == "iter" && it.args.is_empty() && c.inputs.len() == 1 {
+                                    let mut ef = EscapeFinder::default();
+                                    ef.visit_expr(&c.body);
+                                    if ef.escapes == 0 {
+                                        let call = e.span().byte_range();
+                                        let recv = fl.receiver.span().byte_range();
+                                        let pat = c.inputs[0].span().byte_range();
+                                        let body = c.body.span().byte_range();
+                                        self.vd.push(format!(
+                                            "{{\"rule\":\"D3\",\"call\":[{},{}],\"recv\":[{},{}],\"pat\":[{},{}],\"body\":[{},{}]}}",
+                                            call.start, call.end, recv.start, recv.end, pat.start, pat.end, body.start, body.end
+                                        ));
+                                    }
+                                }
+                            }
+                        }
+                    }
+                }
+            }
+        }
         // D4: RECV.for_each(|PAT| BODY)   (RECV ends in `.iter()`, body has no return/break/continue/?)
         if e.method == "for_each" && e.args.len() == 1 {
             if let (syn::Expr::Closure(c), syn::Expr::MethodCall(inner)) = (&e.args[0], &*e.receiver) {
